@@ -1,6 +1,7 @@
 package rules
 
 import (
+	"golang.org/x/tools/go/packages"
 	"go/ast"
 	"go/constant"
 	"go/token"
@@ -439,7 +440,7 @@ func originViaStr(top, at *core.FuncInfo, o string, depth int) string {
 	}
 	var sites []*ast.CallExpr
 	ast.Inspect(top.Decl.Body, func(n ast.Node) bool {
-		if c, ok := n.(*ast.CallExpr); ok && core.Callee(top.Pkg.TypesInfo, c) == at.Obj {
+		if c, ok := n.(*ast.CallExpr); ok && sameFunc(core.Callee(top.Pkg.TypesInfo, c), at.Obj) {
 			sites = append(sites, c)
 		}
 		return true
@@ -451,7 +452,7 @@ func originViaStr(top, at *core.FuncInfo, o string, depth int) string {
 			if c, ok := n.(*ast.CallExpr); ok && curWorld != nil {
 				if mid := curWorld.Info(core.Callee(top.Pkg.TypesInfo, c)); mid != nil && mid != top && mid != at && mid.Pkg == top.Pkg && mid.Decl.Body != nil {
 					ast.Inspect(mid.Decl.Body, func(m ast.Node) bool {
-						if c2, ok := m.(*ast.CallExpr); ok && core.Callee(mid.Pkg.TypesInfo, c2) == at.Obj {
+						if c2, ok := m.(*ast.CallExpr); ok && sameFunc(core.Callee(mid.Pkg.TypesInfo, c2), at.Obj) {
 							out = append(out, substParams(substParams(o, at, c2, mid, depth), mid, c, top, depth))
 						}
 						return true
@@ -580,4 +581,93 @@ func findLitDeep(fn *core.FuncInfo, e ast.Expr, depth int) (*ast.CompositeLit, *
 		}
 	}
 	return nil, nil
+}
+
+// sameFunc: the same declared function (an instantiated generic function or method is its declaration)
+func sameFunc(a, b *types.Func) bool {
+	return a != nil && b != nil && a.Origin() == b.Origin()
+}
+
+// litFuncInfo wraps a function literal (e.g. one stored in a field of a package-level struct literal) so that the
+// origin machinery can read it like a declared helper of the package.
+func litFuncInfo(pkg *packages.Package, lit *ast.FuncLit) *core.FuncInfo {
+	sig, ok := pkg.TypesInfo.TypeOf(lit).(*types.Signature)
+	if !ok {
+		return nil
+	}
+	return &core.FuncInfo{
+		Obj:  types.NewFunc(lit.Pos(), pkg.Types, "func-literal", sig),
+		Decl: &ast.FuncDecl{Name: ast.NewIdent("func-literal"), Type: lit.Type, Body: lit.Body},
+		Pkg:  pkg,
+	}
+}
+
+// fieldFuncOf: call is `x.F(..)` in function at, where x is the receiver of at and F a func-typed field; top calls
+// at on a package-level variable initialised by a struct literal that is never written (`handlerVar.handle(..)`):
+// the function literal (or declared function) that literal stores in F.
+func fieldFuncOf(top, at *core.FuncInfo, call *ast.CallExpr) (*ast.FuncLit, *types.Func, *packages.Package) {
+	if curWorld == nil || at == nil || at.Decl.Recv == nil || len(at.Decl.Recv.List) != 1 || len(at.Decl.Recv.List[0].Names) != 1 {
+		return nil, nil, nil
+	}
+	sel, ok := ast.Unparen(call.Fun).(*ast.SelectorExpr)
+	if !ok {
+		return nil, nil, nil
+	}
+	fld, ok := at.Pkg.TypesInfo.Uses[sel.Sel].(*types.Var)
+	if !ok || !fld.IsField() {
+		return nil, nil, nil
+	}
+	rid, ok := ast.Unparen(sel.X).(*ast.Ident)
+	if !ok || at.Pkg.TypesInfo.Uses[rid] != at.Pkg.TypesInfo.Defs[at.Decl.Recv.List[0].Names[0]] {
+		return nil, nil, nil
+	}
+	var outLit *ast.FuncLit
+	var outFn *types.Func
+	var outPkg *packages.Package
+	n := 0
+	ast.Inspect(top.Decl.Body, func(m ast.Node) bool {
+		c, ok := m.(*ast.CallExpr)
+		if !ok || !sameFunc(core.Callee(top.Pkg.TypesInfo, c), at.Obj) {
+			return true
+		}
+		cs, ok := ast.Unparen(c.Fun).(*ast.SelectorExpr)
+		if !ok {
+			return true
+		}
+		var v *types.Var
+		switch x := ast.Unparen(cs.X).(type) {
+		case *ast.Ident:
+			v, _ = top.Pkg.TypesInfo.Uses[x].(*types.Var)
+		case *ast.SelectorExpr:
+			v, _ = top.Pkg.TypesInfo.Uses[x.Sel].(*types.Var)
+		}
+		lit, lp := curWorld.PkgVarLit(v)
+		if lit == nil {
+			return true
+		}
+		for _, el := range lit.Elts {
+			kv, ok := el.(*ast.KeyValueExpr)
+			if !ok {
+				continue
+			}
+			if kid, ok := kv.Key.(*ast.Ident); ok && kid.Name == fld.Name() {
+				n++
+				switch y := ast.Unparen(kv.Value).(type) {
+				case *ast.FuncLit:
+					outLit, outPkg = y, lp
+				case *ast.Ident:
+					outFn, _ = lp.TypesInfo.Uses[y].(*types.Func)
+					outPkg = lp
+				case *ast.SelectorExpr:
+					outFn, _ = lp.TypesInfo.Uses[y.Sel].(*types.Func)
+					outPkg = lp
+				}
+			}
+		}
+		return true
+	})
+	if n != 1 {
+		return nil, nil, nil
+	}
+	return outLit, outFn, outPkg
 }
